@@ -240,13 +240,9 @@ def model_check(name, module, cfg, workers=8, timeout=1800, must_cover=None, env
 
 # --------------------------------------------------------------------------- trace validation
 
-def validate_trace(path, timeout=1800):
-    """TLC trace validation of an ndjson trace file against LruTrace.tla."""
+def _validate_one(path, timeout):
     n = sum(1 for _ in open(path))
-    if n == 0:
-        raise Machinery("empty trace")
-    r = run_tlc("LruTrace.tla", "LruTrace.cfg", env={"VERIF_TRACE_FILE": path}, workers=1, timeout=timeout,
-                heap=None)
+    r = run_tlc("LruTrace.tla", "LruTrace.cfg", env={"VERIF_TRACE_FILE": path}, workers=1, timeout=timeout)
     res = {"lines": n, "states": r.generated, "wall_s": round(r.wall_s, 2), "accepted": False}
     if r.ok:
         if r.depth != n + 1:
@@ -260,6 +256,67 @@ def validate_trace(path, timeout=1800):
         res["reject"] = {"tag": INV_TAG.get(r.invariant, "C03:" + r.invariant), "line": (r.last_l or 1) - 1}
         return res
     raise Machinery(f"TLC failed on trace {path}: {r.error}\n{r.output[-3000:]}")
+
+
+def validate_trace(path, timeout=1800, parallel=8):
+    """TLC trace validation of an ndjson trace file against LruTrace.tla.  The
+    file holds several independent traces (each starts with a Reset line); they
+    are distributed over up to `parallel` TLC processes."""
+    t0 = time.time()
+    lines = open(path).readlines()
+    if not lines:
+        raise Machinery("empty trace")
+    # split at Reset lines
+    starts = [i for i, l in enumerate(lines) if '"ev":"Reset"' in l]
+    if not starts or starts[0] != 0:
+        starts = [0] + starts
+    traces = [(starts[i], starts[i + 1] if i + 1 < len(starts) else len(lines)) for i in range(len(starts))]
+    k = max(1, min(parallel, len(traces), len(lines) // 2000 + 1))
+    if k == 1:
+        r = _validate_one(path, timeout)
+        return r
+    # greedy balancing by line count
+    bins = [[] for _ in range(k)]
+    load = [0] * k
+    for t in sorted(traces, key=lambda t: t[0] - t[1]):
+        j = load.index(min(load))
+        bins[j].append(t)
+        load[j] += t[1] - t[0]
+    files = []
+    for j, b in enumerate(bins):
+        b.sort()
+        fp = f"{path}.part{j}"
+        offs = []  # (first line in part (1-based), first line in original (1-based), length)
+        with open(fp, "w") as f:
+            at = 1
+            for (a, e) in b:
+                f.writelines(lines[a:e])
+                offs.append((at, a + 1, e - a))
+                at += e - a
+        files.append((fp, offs))
+    import concurrent.futures
+    results = []
+    with concurrent.futures.ThreadPoolExecutor(max_workers=k) as ex:
+        futs = [ex.submit(_validate_one, fp, timeout) for fp, _ in files]
+        for (fp, offs), fu in zip(files, futs):
+            results.append((fp, offs, fu.result()))
+    out = {"lines": len(lines), "states": sum(r["states"] for _, _, r in results), "wall_s": round(time.time() - t0, 2),
+           "accepted": all(r["accepted"] for _, _, r in results), "parts": k}
+    for fp, offs, r in results:
+        if not r["accepted"]:
+            ln = r["reject"]["line"]
+            orig = ln
+            for at, oa, n in offs:
+                if at <= ln < at + n:
+                    orig = oa + (ln - at)
+            out["reject"] = {"tag": r["reject"]["tag"], "line": orig}
+            break
+    for fp, _ in files:
+        try:
+            os.remove(fp)
+        except OSError:
+            pass
+    return out
 
 
 INV_TAG = {
@@ -312,6 +369,8 @@ class Verdict:
         self.known_hits = {}
 
     def add(self, prop, sig, what, replay):
+        # signatures are compared modulo concrete numbers, hashes and sizes
+        sig = re.sub(r"[0-9a-f]{8,}|\d+", "#", sig)
         self.violations.append({"prop": prop, "sig": sig, "what": what, "replay": replay})
 
     def finish(self):
